@@ -22,3 +22,23 @@ pub(crate) fn mk_policy_async(admit: TinyLFU, costs: SampledLFU<HS>, metrics: Ar
 pub(crate) fn add_wiring_async<S: BuildHasher + Clone + 'static>(_p: &AsyncLFUPolicy<S>, key: u64, cost: i64) -> (Option<KVec<PolicyPair>>, bool) {
     crate::policy::verif_harness::psync::add_wiring(key, cost)
 }
+
+/// recorder stand-ins for `AsyncLFUPolicy::cost` / `remove` (same recorder as the sync flavour)
+#[cfg(all(kani, feature = "sync"))]
+pub(crate) fn rec_cost<S: BuildHasher + Clone + 'static>(_p: &AsyncLFUPolicy<S>, _k: &u64) -> i64 {
+    use crate::policy::verif_harness::psync::polrec;
+    unsafe {
+        polrec::COST_CALLS += 1;
+        polrec::COST_ANSWER
+    }
+}
+#[cfg(all(kani, feature = "sync"))]
+pub(crate) fn rec_remove<S: BuildHasher + Clone + 'static>(_p: &AsyncLFUPolicy<S>, k: &u64) {
+    use crate::policy::verif_harness::psync::polrec;
+    unsafe {
+        if polrec::REMOVES < 2 {
+            polrec::REMOVED[polrec::REMOVES] = *k;
+        }
+        polrec::REMOVES += 1;
+    }
+}
